@@ -229,6 +229,14 @@ def gen_plan(rng, run_index, tier, opts):
     if rng.random() < 0.4:
         n_proc = 1 + sum(1 for s_ in steps if s_["op"] == "restart" or s_.get("fault") == "crash")
         plan["proc_tz"] = [rng.choice(PROC_ZONES) for _ in range(n_proc)]
+    if rng.random() < 0.2:
+        # several objects saved in one document (a list / a dictionary of assets and portfolios): every one of them comes back
+        pool = sorted(a_ for a_ in specs.referenced_ids(world, P) if a_[0] == "a")
+        members = [target] + rng.sample(pool, min(len(pool), rng.choice([1, 2])))
+        if rng.random() < 0.4 and P not in members:
+            members.append(P)
+        plan["steps"].append({"op": "bundle", "form": rng.choice(["list", "dict", "nested"]), "members": members,
+                              "path": rng.choice(["string", "file"])})
     return plan
 
 
@@ -520,6 +528,65 @@ class Run:
             self.restart(i)
         elif op == "load":
             self.load(i, st)
+        elif op == "bundle":
+            self.bundle(i, st)
+
+    def bundle(self, i, st):
+        """Several objects in one document: the live target (with its history) next to pristine objects of the same world."""
+        import eaopack as eao
+        objs = []
+        for k, m in enumerate(st["members"]):
+            if k == 0 and self.live is not None:
+                objs.append(self.live)
+            else:
+                objs.append(self.B.obj(m))
+        if st["form"] == "list":
+            doc = list(objs)
+        elif st["form"] == "dict":
+            doc = {"obj %d" % k: o for k, o in enumerate(objs)}
+        else:
+            doc = {"first": objs[0], "rest": list(objs[1:])}
+        snap = copy.deepcopy(doc)
+        self.fault("bundle_" + st["form"])
+        try:
+            if st["path"] == "file":
+                with self.disk.mounted():
+                    eao.serialization.to_json(doc, "bundle.json")
+                    loaded = eao.serialization.load_from_json(file_name="bundle.json")
+            else:
+                loaded = eao.serialization.load_from_json(eao.serialization.to_json(doc))
+        except Exception as e:
+            et, fr = canon.exc_sig(e)
+            # (the same objects saved one by one is what the other steps do; a document of several must work as well)
+            ok_single = True
+            try:
+                for o in objs:
+                    eao.serialization.load_from_json(eao.serialization.to_json(copy.deepcopy(o)))
+            except Exception:
+                ok_single = False
+            if ok_single:
+                self.viol("R1-bundle-raises", i, "saving / loading %d objects in one document raises %s (%s) in %s; each of them alone works"
+                          % (len(objs), et, str(e)[:160], fr), "%s@%s" % (et, fr))
+            self.events.append((i, "bundle", "raise:%s" % et))
+            return
+
+        def flat(d):
+            if isinstance(d, dict):
+                return [x for k in sorted(d) for x in flat(d[k])]
+            if isinstance(d, (list, tuple)):
+                return [x for e in d for x in flat(e)]
+            return [d]
+        fl, fs = flat(loaded), flat(snap)
+        if type(loaded) is not type(snap) or len(fl) != len(fs) or (isinstance(snap, dict) and sorted(loaded) != sorted(snap)):
+            self.viol("R1-bundle-shape", i, "document of %d objects (%s) came back as %s with %d objects" % (len(fs), st["form"], type(loaded).__name__, len(fl)), "shape")
+            return
+        self.stats["bundles_checked"] = self.stats.get("bundles_checked", 0) + 1
+        for k, (lo, sn) in enumerate(zip(fl, fs)):
+            p = self.compare_one(i, lo, sn)
+            if p is not None:
+                self.viol(p[0], i, "object %d of a document of %d: %s [bundle/%s]" % (k, len(fs), p[1], st["path"]), p[2])
+                return
+        self.events.append((i, "bundle", canon.digest_canon(eao.serialization.to_json(snap))))
 
     def restart(self, i):
         # only SimDisk survives; reference snapshots are the oracle's memory, not the system's
